@@ -66,3 +66,25 @@ Definition same_cart_p8 (a b : p8cart) : bool :=
   zlist_eqb (pc_gfx a) (pc_gfx b) && olist_eqb (pc_label a) (pc_label b) &&
   zlist_eqb (pc_gff a) (pc_gff b) && zlist_eqb (pc_map a) (pc_map b) && zlist_eqb (pc_sfx a) (pc_sfx b) &&
   zlist_eqb (music_norm (pc_music a)) (pc_music b).
+
+(* ---- files with short sections (Spec/P8Format.v, "short sections") ----
+   s: what the file spells out - every data region cut after the rows that are present (whole rows: 64 bytes for
+   gfx / label, 128 for gff / map, 68 for sfx, 4 for music; at most the full count).  The cart the file denotes
+   has every region at full size: the rows present, then the empty default. *)
+Definition whole_rows (row full : Z) (d : list Z) : bool :=
+  (zlen d mod row =? 0) && (zlen d <=? full) && all_bytes d.
+
+Definition short_p8cart (s : p8cart) : bool :=
+  (0 <=? pc_version s) &&
+  whole_rows 64 8192 (pc_gfx s) && whole_rows 128 256 (pc_gff s) && whole_rows 128 4096 (pc_map s) &&
+  whole_rows 68 4352 (pc_sfx s) && whole_rows 4 256 (pc_music s) && all_bytes (pc_code s) &&
+  match pc_label s with Some l => whole_rows 64 8192 l | None => true end.
+
+Definition denoted_p8cart (s : p8cart) : p8cart :=
+  {| pc_version := pc_version s; pc_code := pc_code s;
+     pc_gfx := spec_fill (repeat 0 (Z.to_nat 8192)) (pc_gfx s);
+     pc_label := match pc_label s with Some l => Some (spec_fill (repeat 0 (Z.to_nat 8192)) l) | None => None end;
+     pc_gff := spec_fill (repeat 0 256) (pc_gff s);
+     pc_map := spec_fill (repeat 0 (Z.to_nat 4096)) (pc_map s);
+     pc_sfx := spec_fill spec_default_sfx (pc_sfx s);
+     pc_music := spec_fill spec_default_music (pc_music s) |}.
